@@ -30,8 +30,9 @@ type step struct {
 	K     string         `json:"k"`
 	Op    string         `json:"op"`
 	Exp   int            `json:"exp"`
-	P     int            `json:"p"`    // pipelined behaviours: 1 = issued while earlier commands are unanswered
-	Conn  []bool         `json:"conn"` // layout event: nodes the proxy has a backend connection to at start (LazyConnect)
+	P     int            `json:"p"`     // pipelined behaviours: 1 = issued while earlier commands are unanswered
+	Conn  []bool         `json:"conn"`  // layout event: nodes the proxy has a backend connection to at start (LazyConnect)
+	Table map[string]int `json:"table"` // layout event: the proxy's routing table at start (StaleTableAtStart: may differ from owner)
 }
 
 type bad struct {
@@ -54,6 +55,7 @@ type result struct {
 	ExecCounts     []string `json:"execCounts"`     // writes not executed exactly once
 	FirstHopWrong  []string `json:"firstHopWrong"`  // stable layout: command first delivered to a non-owner
 	Bursts         int      `json:"bursts"`         // pipelined behaviours: bursts of more than one command written in one piece
+	MaxChain       int64    `json:"maxChain"`       // most redirections the cluster answered for ONE single-key command
 	FreshRedirects int      `json:"freshRedirects"` // pipelined behaviours: bursts redirected to a node the proxy had no connection to
 	Err            string   `json:"err,omitempty"`
 }
@@ -79,7 +81,7 @@ func junk(rnd *rand.Rand, big bool) []byte {
 	return choices[rnd.Intn(len(choices))]
 }
 
-func replayOne(id int, steps []step, rnd *rand.Rand, big bool, stable bool, pipelined bool) (res result) {
+func replayOne(id int, steps []step, rnd *rand.Rand, big bool, stable bool, pipelined bool, held bool) (res result) {
 	res = result{ID: id}
 	cl, err := simredis.NewCluster(3, 0)
 	if err != nil {
@@ -93,6 +95,16 @@ func replayOne(id int, steps []step, rnd *rand.Rand, big bool, stable bool, pipe
 	}
 	for s, o := range steps[0].Owner {
 		cl.SetOwner(slotOfModel(s), o-1)
+	}
+	stale := map[string]int{}
+	if held {
+		// the table the behaviour starts with is loaded from a layout that is changed afterwards (no data yet)
+		for s, n := range steps[0].Table {
+			if n != 0 && n != steps[0].Owner[s] {
+				cl.SetOwner(slotOfModel(s), n-1)
+				stale[s] = steps[0].Owner[s]
+			}
+		}
 	}
 	seeds := cl.Addrs()
 	if pipelined && len(steps[0].Conn) == len(seeds) {
@@ -115,6 +127,9 @@ func replayOne(id int, steps []step, rnd *rand.Rand, big bool, stable bool, pipe
 		res.Err = "slot table not loaded"
 		return
 	}
+	for s, o := range stale {
+		cl.MoveSlot(slotOfModel(s), o-1) // the refresher is held back: the table stays stale for this slot
+	}
 	c, err := sut.Dial(px.Addr)
 	if err != nil {
 		res.Err = err.Error()
@@ -135,6 +150,7 @@ func replayOne(id int, steps []step, rnd *rand.Rand, big bool, stable bool, pipe
 	}
 	var pending []pend
 	var burst []byte
+	observing := false
 	var judge func(i int, args [][]byte, want resp.Value, v resp.Value, err error)
 	flush := func() {
 		if len(pending) == 0 {
@@ -175,7 +191,11 @@ func replayOne(id int, steps []step, rnd *rand.Rand, big bool, stable bool, pipe
 		if i%2 == 1 {
 			cn = c2
 		}
+		before := atomic.LoadInt64(&cl.Redirects)
 		v, err := cn.DoB(8*time.Second, args...)
+		if d := atomic.LoadInt64(&cl.Redirects) - before; d > res.MaxChain && !observing {
+			res.MaxChain = d
+		}
 		want := ref.Exec(args)
 		judge(i, args, want, v, err)
 	}
@@ -196,6 +216,8 @@ func replayOne(id int, steps []step, rnd *rand.Rand, big bool, stable bool, pipe
 	}
 	B := func(s string) []byte { return []byte(s) }
 	observe := func(i int) {
+		observing = true // split commands: the redirections of several children add up
+		defer func() { observing = false }()
 		do(i, B("MGET"), B(concreteKey("a1")), B(concreteKey("b1")+"none"), B(concreteKey("a1")))
 		do(i, B("exists"), B(concreteKey("a1")), B(concreteKey("a2")), B(concreteKey("b1")))
 	}
@@ -304,7 +326,7 @@ func replayOne(id int, steps []step, rnd *rand.Rand, big bool, stable bool, pipe
 			do(1000+round*10+i, B("exists"), B(concreteKey(mk)))
 		}
 		flush()
-		if (round >= 3 && cl.Redirects == before) || pipelined { // pipelined: the refresher is held back, nothing to wait for
+		if (round >= 3 && cl.Redirects == before) || held { // pipelined: the refresher is held back, nothing to wait for
 			break
 		}
 	}
@@ -350,12 +372,14 @@ func replay(args []string) error {
 	out := fs.String("out", "", "results (ndjson)")
 	stable := fs.Bool("stable", false, "the layout never changes: no redirection may happen at all")
 	big := fs.Bool("big", false, "include multi-megabyte values")
+	norefreshF := fs.Bool("norefresh", false, "the refresher is held back after the table has been loaded; the layout event may carry a stale table")
 	pipelined := fs.Bool("pipeline", false, "behaviours of ONE pipelining client (p = 1 marks a command written together with its predecessor); the refresher is held back after the table has been loaded")
 	if err := fs.Parse(args); err != nil {
 		return err
 	}
 	sut.FastRefresh()
-	if *pipelined {
+	norefresh := *norefreshF
+	if *pipelined || norefresh {
 		// one refresh at start, then none (loopRefreshSlots waits slotsRefMinRate after every refresh): the table
 		// stays as loaded, as in the behaviours of ClusterGen with Pipelined = TRUE
 		predis.VerifSetSlotsRefreshTimers(time.Hour, time.Hour)
@@ -373,7 +397,7 @@ func replay(args []string) error {
 			return err
 		}
 		id++
-		return w.Write(replayOne(id, steps, rnd, *big, *stable, *pipelined))
+		return w.Write(replayOne(id, steps, rnd, *big, *stable, *pipelined, *pipelined || norefresh))
 	})
 }
 
